@@ -32,6 +32,7 @@ OBLIGATIONS = {
     "flip_magic": "a bit was flipped in the magic", "flip_command": "a bit was flipped in the command field",
     "flip_length": "a bit was flipped in the length", "flip_checksum": "a bit was flipped in the checksum",
     "flip_payload": "a bit was flipped in the payload",
+    "beyond_list_limit": "a payload one entry beyond another implementation's per-command list limit was received",
     "long_dribble": "a payload of >= 1000 bytes delivered one byte per recv()",
     "two_messages_back_to_back": "a stream with >= 2 messages was explored",
     "codec_count_253": "a codec count crossed the 252/253 CompactSize boundary",
@@ -224,7 +225,7 @@ def chk_schedule(case):
     """one fixed execution: stream + magic + explicit choice list (or a named policy)"""
     magic = bytes.fromhex(case["magic"])
     if "big_size" in case:
-        stream = R.frame(magic, b"block", filler(case.get("seed", 0), "c17-big", case["big_size"])) + alphabet(case.get("seed", 0))["ping"]
+        stream = R.frame(magic, case.get("big_cmd", "block").encode(), filler(case.get("seed", 0), "c17-big", case["big_size"])) + alphabet(case.get("seed", 0))["ping"]
     else:
         stream = bytes.fromhex(case["stream"])
     if "choices" in case:
@@ -400,6 +401,7 @@ def jobs(tier, seed):
         js.append({"name": f"frag-big/{size}", "part": "big", "size": size, "weight": 30})
     pairs = [("ping", "inv"), ("version", "verack"), ("unknown", "ping")] if tier == "quick" else \
         [("ping", "inv"), ("version", "verack"), ("unknown", "ping"), ("addr", "addr"), ("verack", "tx300"), ("inv", "version")]
+    js.append({"name": "frag-listlimits", "part": "listlimits", "weight": 12})
     for a, b in pairs:
         js.append({"name": f"flip/{a}+{b}", "part": "flip", "msgs": [a, b], "weight": 20})
         js.append({"name": f"trunc/{a}+{b}", "part": "trunc", "msgs": [a, b], "weight": 20})
@@ -510,6 +512,20 @@ def run_job(job):
                 acc.violation("schedule", {"stream_desc": f"block({job['size']}B)+ping", **({"stream": stream.hex()} if len(stream) < 5000 else {"big_size": job["size"]}),
                                            "magic": magic.hex(), "policy": pol, "at": at}, key, desc + f" [{pol} schedule on a {job['size']}-byte payload]")
         acc.sample({"big_payload": job["size"], "executions": ex.executions, "states": ex.states})
+    elif part == "listlimits":
+        # payloads one entry beyond the list limits other node software applies per command (addr 1000 x 30, inv/getdata 50000 x 36,
+        # headers 2000 x 81, + the count byte(s)), a transaction of 100 001 bytes and a block of 4 000 001 bytes: the framing layer
+        # has no per-command limit, the message must arrive intact and the following ping must not be disturbed
+        for cmd, size in (("addr", 3 + 30 * 1001), ("addr", 3 + 30 * 2500), ("inv", 3 + 36 * 50001), ("getdata", 3 + 36 * 50001),
+                          ("headers", 3 + 81 * 2001), ("tx", 100_001), ("block", 4_000_001), ("notfound", 3 + 36 * 50001)):
+            for pol, at in (("whole", 0), ("split_before", 24 + size // 2), ("split_after", 23)) + ((("bytewise", 0),) if size < 200_000 else ()):
+                case = {"big_cmd": cmd, "big_size": size, "seed": seed, "magic": magic.hex(), "policy": pol, "at": at}
+                acc.evaluations += 1
+                acc.executions += 1
+                acc.nontrivial += 1
+                acc.ob("beyond_list_limit")
+                acc.check("schedule", case, chk_schedule)
+        acc.sample({"list_limit_payloads": "addr 1001/2500, inv/getdata/notfound 50001, headers 2001, tx 100001 B, block 4000001 B"})
     elif part == "flip":
         stream = b"".join(A[m] for m in job["msgs"])
         first_len = len(A[job["msgs"][0]])
